@@ -1,5 +1,6 @@
 import NiftyVerif.Core.Proto
 import NiftyVerif.Model.ExprIO
+import NiftyVerif.Model.Cplx
 open Lean NiftyVerif NiftyVerif.Proto NiftyVerif.Expr NiftyVerif.Gen.Ptw NiftyVerif.ExprIO
 
 /-!
@@ -29,6 +30,8 @@ instance : Transc Rat where
   pow := fun _ _ => 0
   pi := 0
   nan := 0
+
+instance : Conj Rat := ⟨fun x => x⟩
 
 def rationalFn (f : Fn) : Bool :=
   match f with
@@ -80,6 +83,62 @@ def handleLinQ (j : Json) : Json :=
             ("metric", met)]
   | _, _, _ => jErr "bad-args"
 
+/-! complex mode (class T): numbers as `[re_bits, im_bits]`; holomorphic nodes only -/
+
+def getCplx? (j : Json) : Option Cplx :=
+  match j with
+  | Json.arr a =>
+    match a.toList with
+    | [x, y] => do some ⟨← getFloat? x, ← getFloat? y⟩
+    | _ => none
+  | _ => none
+
+def jCplx (z : Cplx) : Json := Json.arr #[jFloat z.re, jFloat z.im]
+def jCplxs (l : List Cplx) : Json := Json.arr (l.map jCplx).toArray
+def jCplxMat (m : List (List Cplx)) : Json := Json.arr (m.map jCplxs).toArray
+
+def holoFn (f : Fn) : Bool :=
+  match f with
+  | .sin | .cos | .exp | .expm1 | .sinh | .cosh | .tanh | .sigmoid | .reciprocal | .sqrt | .log | .log10 | .log1p
+  | .power | .exponentiate | .tan | .arctan => true
+  | _ => false
+
+def holoTree : Ex Cplx → Bool
+  | .var _ _ => true
+  | .add a b => holoTree a && holoTree b
+  | .sub a b => holoTree a && holoTree b
+  | .mul a b => holoTree a && holoTree b
+  | .bil _ _ _ _ a b => holoTree a && holoTree b
+  | .chain f g => holoTree f && holoTree g
+  | .scale _ a => holoTree a
+  | .addc _ _ a => holoTree a
+  | .mulc _ a => holoTree a
+  | .ptw f _ a => holoFn f && holoTree a
+  | .lin _ _ _ a => holoTree a
+  | .sum a => holoTree a
+  | .getKey _ a => holoTree a
+  | .putKey _ a => holoTree a
+  | _ => false
+
+def handleLinC (j : Json) : Json :=
+  let z : Cplx := ⟨0.0, 0.0⟩
+  let o : Cplx := ⟨1.0, 0.0⟩
+  match (field? j "in").bind getDom?, (field? j "expr").bind (getExG getCplx? z) with
+  | some din, some e =>
+    match (field? j "x").bind (envOfG getCplx? z din) with
+    | none => jErr "bad-env"
+    | some ρ =>
+      if !check e din then jErr "ill-formed" else
+      if !holoTree e then jErr "not-holomorphic" else
+      let dout := sortDom e.dom
+      let l := lin e ρ false
+      jObj [("dom", jDom dout),
+            ("pval", jCplxs (flatG dout (eval e ρ))),
+            ("val", jCplxs (flatG dout l.val)),
+            ("jac", jCplxMat ((unitsG z o din).map (fun h => flatG dout (l.jac h)))),
+            ("adj", jCplxMat ((unitsG z o dout).map (fun y => flatG din (l.adj y))))]
+  | _, _ => jErr "bad-args"
+
 def handle (j : Json) : Json :=
   match fStr? j "op" with
   | some "ptw" =>
@@ -89,6 +148,7 @@ def handle (j : Json) : Json :=
       jObj [("val", jFloats (v.map (f.val p))), ("hval", jFloats (v.map (f.hval p))), ("der", jFloats (v.map (f.der p)))]
     | _, _, _ => jErr "bad-args"
   | some "linq" => handleLinQ j
+  | some "linc" => handleLinC j
   | some "lin" =>
     match (field? j "in").bind getDom?, (field? j "expr").bind getEx?, fBool? j "wm" with
     | some din, some e, some wm =>
